@@ -304,6 +304,9 @@ func (e *specEnv) evalBinary(n *EBinary) sv {
 		}
 		dom, _, _ := e.c.mapHeaps(mt)
 		d := e.c.heapGet(dom, e.c.heapSort[dom])
+		if e.inPat {
+			return sv{sel2(d, m.t, k.t), tBool} // as a trigger: the domain lookup itself
+		}
 		return sv{and(not(eq(m.t, "0")), sel2(d, m.t, k.t)), tBool}
 	}
 	a := e.eval(n.X)
@@ -673,6 +676,27 @@ func (e *specEnv) evalCall(n *ECall) sv {
 		return sv{app("s-"+n.Fun, a.t), tInt}
 	case "alloc":
 		return sv{c.alloc(), tInt}
+	case "unchanged":
+		// unchanged(): no modelled heap differs from its state at entry (the call wrote nothing)
+		if e.old == nil {
+			specFail("unchanged() not available")
+		}
+		var parts []string
+		for _, h := range c.heapOrder {
+			if c.isLocalHeap(h) || h == "ALLOC" {
+				continue
+			}
+			cur, ok := e.heap[h]
+			if !ok {
+				continue
+			}
+			o, ok := e.old[h]
+			if !ok || o == cur {
+				continue
+			}
+			parts = append(parts, eq(cur, o))
+		}
+		return sv{and(parts...), tBool}
 	case "oldalloc":
 		if e.old == nil {
 			specFail("oldalloc() not available")
